@@ -860,6 +860,10 @@ func (tic *TermInCommittee) HandleNewView(nvm *interfaces.NewViewMessage) {
 			// it now (enter the next view, arm its timer) and handle the NEW_VIEW from there instead of dropping it
 			current := tic.State.HeightView()
 			tic.moveToNextLeaderByElection(current.Height(), current.View(), nil)
+			if tic.State.View() > nvmHeader.View() {
+				tic.logger.Info("LHMSG RECEIVED NEW_VIEW IGNORE - the view of the message has timed out: current view %d, message view %d", tic.State.View(), nvmHeader.View())
+				return
+			}
 			ctx, err = tic.State.Contexts.For(tic.State.HeightView())
 		}
 		if err != nil {
